@@ -375,6 +375,7 @@ func extractFacts(pkgs []*packages.Package, prog *ssa.Program, byPath map[string
 	// ---- commit structure
 	sb.WriteString(commitFacts(p))
 	sb.WriteString(spanFacts(pz))
+	sb.WriteString(bptFacts(p))
 	// ---- mode check decision
 	sb.WriteString(modeFacts(p))
 	sb.WriteString(lockFacts(prog, sp))
@@ -540,6 +541,83 @@ func spanFacts(pz *packages.Package) string {
 		}
 	}
 	return "/-- ds/zset: every statement that reads or writes a span, `rank[]` or `traversed`, every search-loop condition and every score / forward test: (function, kind, source text), in source order -/\ndef spanStmts : List (String × String × String) := [\n" + strings.Join(items, ",\n") + "]\n\n"
+}
+
+// bptFacts: the comparisons, loop headers and split indexes of the in-memory B+ tree (bptree.go) that
+// Nuts.Model.BPTree renders: for the functions of the descent, the leaf-chain scans and the insertion, every
+// `if` / `for` condition and every assignment that mentions a key comparison, a prefix test, the order, a
+// split index, an offset or a limit counter — (function, kind, source text), in source order.
+func bptFacts(p *packages.Package) string {
+	want := map[string]bool{"FindLeaf": true, "findRange": true, "getAll": true, "PrefixScan": true, "PrefixSearchScan": true, "Find": true,
+		"Insert": true, "splitLeaf": true, "splitParent": true, "insertIntoLeaf": true, "insertIntoNode": true, "insertIntoParent": true,
+		"insertIntoNewRoot": true, "getSplitIndex": true, "startNewTree": true}
+	var items []string
+	if p != nil {
+		for _, f := range p.Syntax {
+			if !strings.HasSuffix(p.Fset.Position(f.Pos()).Filename, "/bptree.go") {
+				continue
+			}
+			for _, d := range f.Decls {
+				fd, ok := d.(*ast.FuncDecl)
+				if !ok || fd.Body == nil || !want[fd.Name.Name] {
+					continue
+				}
+				name := fd.Name.Name
+				add := func(kind, text string) {
+					items = append(items, fmt.Sprintf("  (%s, %s, %s)", leanStr(name), leanStr(kind), leanStr(text)))
+				}
+				interesting := func(t string) bool {
+					for _, w := range []string{"compare(", "HasPrefix", "order", "splitIndex", "getSplitIndex", "KeysNum", "coff", "numFound", "limitNum", "offsetNum", "scanFlag", "isLeaf"} {
+						if strings.Contains(t, w) {
+							return true
+						}
+					}
+					return false
+				}
+				ast.Inspect(fd.Body, func(n ast.Node) bool {
+					switch x := n.(type) {
+					case *ast.AssignStmt:
+						if len(x.Lhs) == 1 && len(x.Rhs) == 1 {
+							t := exprStr(p.Fset, x.Lhs[0]) + " " + x.Tok.String() + " " + exprStr(p.Fset, x.Rhs[0])
+							if interesting(t) && !strings.Contains(t, "func(") {
+								add("assign", t)
+							}
+						}
+					case *ast.IncDecStmt:
+						t := exprStr(p.Fset, x.X) + x.Tok.String()
+						if interesting(t) {
+							add("incdec", t)
+						}
+					case *ast.ForStmt:
+						h := ""
+						if as, ok := x.Init.(*ast.AssignStmt); ok && len(as.Lhs) == 1 {
+							h = exprStr(p.Fset, as.Lhs[0]) + " " + as.Tok.String() + " " + exprStr(p.Fset, as.Rhs[0])
+						}
+						h += "; "
+						if x.Cond != nil {
+							h += exprStr(p.Fset, x.Cond)
+						}
+						h += "; "
+						if id, ok := x.Post.(*ast.IncDecStmt); ok {
+							h += exprStr(p.Fset, id.X) + id.Tok.String()
+						}
+						add("for", h)
+					case *ast.IfStmt:
+						t := exprStr(p.Fset, x.Cond)
+						if interesting(t) {
+							add("if", t)
+						}
+					case *ast.ReturnStmt:
+						if name == "getSplitIndex" {
+							add("return", exprStr(p.Fset, x))
+						}
+					}
+					return true
+				})
+			}
+		}
+	}
+	return "/-- bptree.go: the comparisons, loop headers, split indexes, offset and limit counters of the descent, the leaf-chain scans and the insertion: (function, kind, source text), in source order -/\ndef bptStmts : List (String × String × String) := [\n" + strings.Join(items, ",\n") + "]\n\n"
 }
 
 // modeFacts: the two refusal conditions of checkEntryIdxMode, as printed source.
